@@ -22,7 +22,7 @@ class Sorter(Protocol):
 class NoSorter(Sorter):
     def sort_files(self, trashed_files,  # type: Iterable[TrashedFile]
                    ):  # type: (...) -> Iterable[TrashedFile]
-        return trashed_files
+        return list(trashed_files)
 
 
 class SortFunction(Sorter):
@@ -43,5 +43,5 @@ def sorter_for(sort,  # type: Sort
     return {
         Sort.ByPath: SortFunction(path_ranking),
         Sort.ByDate: SortFunction(date_rankking),
-        Sort.DoNot: NoSorter,
+        Sort.DoNot: NoSorter(),
     }[sort]
